@@ -77,7 +77,13 @@ impl Blob {
         }
 
         let mut limited = reader.take(self.length);
-        copy(&mut limited, writer).read_err("Failed to read binary blob data")
+        let copied = copy(&mut limited, writer).read_err("Failed to read binary blob data")?;
+
+        // The file can end before the blob does, never report less data than requested as success
+        if copied != self.length {
+            Error::invalid("The file ends before the end of the binary blob data")?
+        }
+        Ok(copied)
     }
 
     pub(crate) fn write<T: Read + Write + Seek>(
